@@ -122,6 +122,12 @@ impl<'a> Ctx<'a> {
     }
 }
 
+/// Thorough tier: engines use deeper bounds (longer programs, more chunks, more Pending).
+pub static DEEP: AtomicBool = AtomicBool::new(false);
+pub fn deep() -> bool {
+    DEEP.load(Ordering::Relaxed)
+}
+
 pub type EngineFn = fn(&mut Ctx) -> Result<RunOut, Violation>;
 
 #[derive(Clone, Copy)]
